@@ -103,6 +103,23 @@ M = [
      "half_dt = evolve_dt / 2"),
     ("C14-dump-fails-silently-after-step-2", ["C14"], "renormalizer/utils/tdmps.py", "        d = self.get_dump_dict()\n        os.makedirs(self.dump_dir, exist_ok=True)",
      "        d = self.get_dump_dict()\n        if len(self.evolve_times) > 2:\n            raise IOError('disk quota')\n        os.makedirs(self.dump_dir, exist_ok=True)"),
+    # ---- monitors added after the reach map ----------------------------------------------------------------------
+    ("C17-rdm2-transposed", ["C17"], "renormalizer/mps/gs.py", "rdm2 = rdm2.transpose(0, 3, 1, 2)", "rdm2 = rdm2.transpose(0, 3, 2, 1)"),
+    ("C17-rdm1-beta-from-alpha", ["C17"], "renormalizer/mps/gs.py", "opbb = process_op(a_dag_ops[2*i+1] * a_ops[2*j+1])",
+     "opbb = process_op(a_dag_ops[2*i+1] * a_ops[2*j])"),
+    ("C16-j-constant-len0", ["C16"], "renormalizer/model/model.py", "        if len(j_set) == 1:\n            return j_set.pop()",
+     "        if len(j_set) == 0:\n            return j_set.pop()"),
+    ("C16-reorganisation-energy-omega0", ["C16"], "renormalizer/model/phonon.py", "0.5 * dis_diff ** 2 * self.omega[1] ** 2",
+     "0.5 * dis_diff ** 2 * self.omega[0] ** 2"),
+    ("C16-ex-zpe-ground-frequencies", ["C16"], "renormalizer/model/mol.py", "            e += ph.omega[1]\n", "            e += ph.omega[0]\n"),
+    ("C16-quantity-sub-adds", ["C16"], "renormalizer/utils/quantity.py", "return Quantity(self.as_au() - other.as_au())",
+     "return Quantity(self.as_au() + other.as_au())"),
+    ("C16-intersite-ignores-scale-unit", ["C16"], "renormalizer/mps/mpo.py", "op = scale.as_au() * Op.product(ops)", "op = scale.value * Op.product(ops)"),
+    ("C16-switch-scheme-keeps-scheme", ["C16"], "renormalizer/model/model.py", "return HolsteinModel(self.mol_list, self.j_matrix, scheme)",
+     "return HolsteinModel(self.mol_list, self.j_matrix, self.scheme)"),
+    ("C20-matching2-stops-early", ["C20"], "renormalizer/lib/bipartite_matching/bipartite_matching.py",
+     "    for u in range(nU):\n        augment(u, bigraph, [False] * nV, match)", "    for u in range(max(nU - 1, 1)):\n        augment(u, bigraph, [False] * nV, match)"),
+    ("C03-normalize-norm-to-coeff-divides", ["C03"], "renormalizer/mps/mps.py", "        new_coeff = tn.coeff * tn_norm\n", "        new_coeff = tn.coeff / tn_norm\n"),
     ("C15-simplify-sums-abs", ["C15"], "renormalizer/model/op.py", None, None),
     ("C18-svd-qn-block-order", ["C18", "C04"], "renormalizer/mps/svd_qn.py", None, None),
     ("C20-cover-drops-isolated", ["C20"], "renormalizer/lib/bipartite_matching/bipartite_matching.py", None, None),
